@@ -31,6 +31,9 @@ def scenarios(tier):
                      post_cmds=post, poll_at="h:"), 0 if q else 1))
     L.append((SC.scn("noisy-j2-follower-polls-every-fragment", w, ["redo --no-color -j2 top"], visible=VIS, log_mode=True,
                      post_cmds=post, poll_at="h:"), 0 if q else 1))
+    # every script ends with an unterminated line
+    L.append((SC.scn("noisy-unterminated-last-line-j1", noisy_world(4), ["redo --no-color top"], visible=VIS, log_mode=True,
+                     post_cmds=post, unterminated=True), 0 if q else 1))
     if not q:
         L.append((SC.scn("noisy-ifchange-j1", w, ["redo-ifchange top"], visible=VIS, log_mode=True, post_cmds=post), 2))
         L.append((SC.scn("noisy-record-like-line-j1", noisy_world(2), ["redo --no-color top"], visible=VIS, log_mode=True,
@@ -86,6 +89,8 @@ def judge_stream(name, pairs, targets, scn, out):
         if not m:
             continue
         t, seq, payload = m.group(1), int(m.group(2)), m.group(3)
+        if seq == 6:
+            continue
         if t not in seen:
             out.append(({"kind": "log-line-for-unknown-target", "scenario": scn["name"], "stream": name}, {"line": line[:200]}))
             continue
@@ -96,7 +101,17 @@ def judge_stream(name, pairs, targets, scn, out):
         if cur is None or cur.split("/")[-1] != t:
             out.append(({"kind": "log-line-under-wrong-target", "scenario": scn["name"], "stream": name, "target": t, "seq": seq},
                         {"header": cur}))
+    if scn.get("unterminated"):
+        # an unterminated last line is passed on as it is (no header of its own, possibly glued to what follows): judged only
+        # for "every target's, exactly once"
+        text = "\n".join(l for _c, l in pairs)
+        for t in targets:
+            n = len(re.findall(r"L %s 6 no newline at the end" % re.escape(t), text))
+            if n != 1:
+                out.append(({"kind": "unterminated-last-line-" + ("lost" if n == 0 else "duplicated"), "scenario": scn["name"],
+                             "stream": name, "target": t}, {"count": n}))
     for t, seqs in seen.items():
+        seqs = [x for x in seqs if x != 6]
         if seqs != ORDER:
             what = "missing" if len(seqs) < len(ORDER) else ("duplicated" if len(set(seqs)) < len(seqs) else "reordered")
             out.append(({"kind": "log-lines-" + what, "scenario": scn["name"], "stream": name, "target": t}, {"seqs": seqs}))
